@@ -312,6 +312,33 @@ Proof.
     assert (T : fa = fb) by (apply S; reflexivity). apply Hc in T. apply B in T. congruence.
 Qed.
 
+(** validate_smiles: per mapper column one verdict per record, in record order, each the verdict of smiles_check on
+    (that record's mapped string, that record's ground truth) - in this argument order; the count is the number of accepted
+    records *)
+Theorem validate_smiles_spec (m : str) (ia : bool) (ncols : nat) (rows : list orow) :
+  length (validate_smiles m ia ncols rows) = ncols /\
+  forall k, (k < ncols)%nat ->
+    let c := nth k (validate_smiles m ia ncols rows) ([], 0%nat, 0%nat) in
+    length (fst (fst c)) = length rows /\ snd c = length rows /\
+    (forall i, (i < length rows)%nat ->
+       nth i (fst (fst c)) false = smiles_check_full m ia (nth k (snd (nth i rows (None, []))) None) (fst (nth i rows (None, [])))) /\
+    snd (fst c) = length (filter (fun b : bool => b) (fst (fst c))) /\ (snd (fst c) <= snd c)%nat.
+Proof.
+  split; [unfold validate_smiles; rewrite map_length, seq_length; reflexivity|].
+  intros k Hk. cbv zeta. unfold validate_smiles.
+  rewrite (nth_indep _ ([], 0%nat, 0%nat) (validate_column m ia 0 rows)) by (rewrite map_length, seq_length; exact Hk).
+  rewrite (map_nth (fun k => validate_column m ia k rows) (seq 0 ncols) 0%nat k), seq_nth by exact Hk. simpl.
+  repeat split.
+  - rewrite map_length. reflexivity.
+  - intros i Hi. set (F := fun r : orow => smiles_check_full m ia (nth k (snd r) None) (fst r)).
+    set (d := ((None, []) : orow)).
+    rewrite (nth_indep (map F rows) false (F d)) by (rewrite map_length; exact Hi).
+    rewrite (map_nth F rows d i). reflexivity.
+  - rewrite <- (map_length (fun r : orow => smiles_check_full m ia (nth k (snd r) None) (fst r)) rows).
+    generalize (map (fun r : orow => smiles_check_full m ia (nth k (snd r) None) (fst r)) rows). intros l.
+    induction l as [|b l IH]; simpl; [lia|]. destruct b; simpl; lia.
+Qed.
+
 (** * Non-vacuity *)
 Example ex_expand : expand_sides 4 [3; 0; 5; 0; 0; 3; 5] = ([3; 6; 5; 7], [8; 3; 5]).
 Proof. reflexivity. Qed.
@@ -329,3 +356,6 @@ Proof. vm_compute. reflexivity. Qed.
 Example ex_reset : node_ids (reset_indices (extract_subgraph C09_Main.ex_H [7; 2]%N)) = [1; 2]%N /\ node_ids (reset_indices_by [2; 7]%N (extract_subgraph C09_Main.ex_H [7; 2]%N)) = [2; 1]%N /\
                    gedges (extract_subgraph C09_Main.ex_H [7; 1]%N) = [(1, 7, 2%Z)]%N /\ gedges (extract_subgraph C09_Main.ex_H [7; 2]%N) = [].
 Proof. vm_compute. repeat split. Qed.
+Example ex_validate : validate_smiles [82; 67]%N false 2 [(Some (C09_Main.ex_G, C09_Main.ex_H), [Some (C09_Main.ex_G, C09_Main.ex_H); None])]
+                      = [([true], 1%nat, 1%nat); ([false], 0%nat, 1%nat)].
+Proof. vm_compute. reflexivity. Qed.
